@@ -67,6 +67,7 @@ def gen_cases(ctx):
             cases.append(("f%d" % j[0], "chk", [t, h]))
             j[0] += 1
     nval = {"quick": 26, "thorough": 900}[ctx.tier]
+    gov = S.Gen(r.fork(), big=False, over=True)
     for t in S.TYPES:
         heavy = t in ("popdata", "vtb", "vbkpoptx")
         # random bytes, with plausible first bytes
@@ -76,6 +77,12 @@ def gen_cases(ctx):
             if n >= 4 and t in ("atv", "vtb", "popdata") and r.chance(3, 4):
                 b = b"\x00\x00\x00\x01" + b[4:]
             add(t, "random", b)
+        # values that exceed ONE declared limit by one byte / one element, really carrying the data
+        for _ in range((nval // 3 if heavy else nval) // 2):
+            try:
+                add(t, "overlimit", S.py_encode(c, t, gov.value(t))[0])
+            except (OverflowError, ValueError):
+                pass
         for _ in range(nval // 3 if heavy else nval):
             v = g.value(t)
             base, e = S.py_encode(c, t, v)
